@@ -415,3 +415,48 @@ def start_state_fn(text):
             "  ensures state_names.names@ == Set::<Name>::empty() ==> res == Some(true),\n"
             "    state_names.names@ != Set::<Name>::empty() ==> (res.is_some() <==> (name_of(fsm.start) matches Some(n) && state_names.names@.contains(n))) && res != Some(true),\n{\n"
             + b + "\n  Some(false)\n}\n")
+
+
+# ---- fsm_argument_kind_matches (whole body) ------------------------------------------------------------------------------------
+KIND_MODEL = """
+// a kind is a tree: references wrap a kind, a matrix kind has an element kind and a (possibly empty = unspecified) list of dimensions,
+// every other kind is an opaque identity
+pub enum ValueKind { Reference(Box<ValueKind>), Matrix(Box<ValueKind>, Vec<usize>), Other(u64) }
+#[verifier::external_body]
+pub fn kind_eq(a: &ValueKind, b: &ValueKind) -> (r: bool) ensures r == (*a == *b), { unimplemented!() }   // derived PartialEq: structural equality
+pub open spec fn strip(k: ValueKind) -> ValueKind decreases k {
+  match k { ValueKind::Reference(inner) => strip(*inner), _ => k }
+}
+// THE CONTRACT (from the property, C17: "arguments of the wrong kind are rejected"): an argument fits its declared kind iff, references
+// aside, the two kinds are EQUAL -- except that a matrix kind declared without dimensions fits a matrix of any shape with the same element kind
+pub open spec fn kind_fits(expected: ValueKind, actual: ValueKind) -> bool {
+  let e = strip(expected); let a = strip(actual);
+  match (e, a) {
+    (ValueKind::Matrix(ee, ed), ValueKind::Matrix(ae, _ad)) => if ed@.len() == 0 { *ee == *ae } else { e == a },
+    _ => e == a,
+  }
+}
+"""
+
+
+def kind_fn(text):
+    """`fsm_argument_kind_matches` (whole body): the nested helper `strip_references` is lifted to a top-level function (Verus has no nested
+    items) and given the contract `r == strip(kind)`; `X == Y` on kinds -> `kind_eq(X, Y)` (derived PartialEq, assumed structural);
+    `b.as_ref()` on a `Box` -> `&**b`"""
+    sig, body = extract_fn(text, "fsm_argument_kind_matches")
+    b = re.sub(r"//[^\n]*", "", body[body.index("{") + 1:body.rindex("}")]).replace("\r", "")
+    m = re.search(r"\bfn\s+strip_references\b", b)
+    if not m:
+        raise AnchorLost("fsm_argument_kind_matches: nested helper strip_references not found")
+    hb = match_brace(b, b.index("{", m.end()))
+    helper = b[b.index("{", m.end()):hb]
+    b = b[:m.start()] + b[hb:]
+    def fix(s):
+        s = re.sub(r"\b(\w+)\.as_ref\(\)", r"(&**\1)", s)
+        s = re.sub(r"(\(&\*\*\w+\)|\b\w+\b)\s*==\s*(\(&\*\*\w+\)|\b\w+\b)", r"kind_eq(\1, \2)", s)
+        return s
+    helper, b = fix(helper), fix(b)
+    if re.search(r"\bfn\b|\bas_ref\b|==", b) or "==" in helper:
+        raise AnchorLost("fsm_argument_kind_matches: statements outside the transcription rules")
+    return ("fn strip_references<'a>(kind: &'a ValueKind) -> (r: &'a ValueKind)\n  ensures *r == strip(*kind),\n  decreases *kind,\n" + helper + "\n"
+            "fn fsm_argument_kind_matches(expected: &ValueKind, actual: &ValueKind) -> (r: bool)\n  ensures r == kind_fits(*expected, *actual),\n{\n" + b + "\n}\n")
